@@ -391,6 +391,10 @@ class kFlowDecomp(pathmodel.AbstractPathModelDAG):
         start_time = time.perf_counter()
         (paths, weights) = self.G.decompose_using_max_bottleneck(self.flow_attr)
 
+        # An all-zero flow has no bottleneck path: nothing to take over from the greedy algorithm
+        if len(paths) == 0:
+            return False
+
         # Check if the greedy decomposition satisfies the subpath constraints
         if self.subpath_constraints:
             for subpath in self.subpath_constraints:
